@@ -26,6 +26,13 @@ func RunATPServer(
 		session.run()
 	}()
 
+	// The read loop and every step and signal goroutine are counted in the wait group before they
+	// start, so the channel is closed only when nothing can send on it anymore.
+	go func() {
+		session.wg.Wait()
+		close(session.workDone)
+	}()
+
 	workError := session.handleClosure()
 
 	// Ensure that the session is done.
@@ -306,7 +313,6 @@ func (s *atpServerSession) handleSignalMessage(runID string, signalMessage Signa
 func (s *atpServerSession) run() {
 	defer func() {
 		s.runDoneChannel <- true
-		close(s.workDone)
 		s.wg.Done()
 	}()
 
